@@ -439,13 +439,16 @@ func skipToPanic(stack string) string {
 // tryLock repeats a TryLock probe: readers (gossip goroutines, event loops) hold the
 // mutexes for microseconds at a time, a leaked lock is held for ever.
 func tryLock(f func() bool) bool {
-	for i := 0; i < 60000; i++ {
+	deadline := time.Now().Add(5 * time.Second)
+	for {
 		if f() {
 			return true
 		}
+		if time.Now().After(deadline) {
+			return false
+		}
 		time.Sleep(100 * time.Microsecond)
 	}
-	return false
 }
 
 func (rn *Runner) probes(peer *StubPeer, variant string, sess []Msg, last int, reactor, kind string) bool {
